@@ -22,7 +22,8 @@ SHRINK_LISTS = [('frag_cuts',), ('cuts',)]
 EXPECTED_PROBES = ['valid', 'invalid', 'incomplete', 'split_inside_codepoint',
                    'ping_between_fragments', 'compressed', 'as_close_reason',
                    'stall_failfast_checked', 'compressed_large',
-                   'valid_message_in_front', 'close_reason_of_greatest_length']
+                   'valid_message_in_front', 'close_reason_of_greatest_length',
+                   'offending_byte_not_last_in_read']
 ASSUMPTIONS = ['the validator state x byte product is explored through the '
                'real receive path with representative prefixes, not by an '
                'exhaustive product over internal states (see DESIGN.md 10)']
@@ -150,6 +151,23 @@ def make_case(family, i, rng, tier):
             # complete messages of either kind in front of it
             case['before'] = rng.choice([True, 'binary', 'binary_frag',
                                          'text_frag'])
+        if rng.random() < 0.4:
+            # the offending byte does not come alone: a truncated sequence,
+            # a read boundary, then a run of ASCII of which the first byte
+            # is the offending one - the rest of the run rides along in the
+            # same read (the message still does not end)
+            k = rng.choice([2, 16, 31, 32, 33, 64, 200, 1000, 5000])
+            pre = S.rand_text(rng, rng.choice([0, 1, 20, 200])).encode('utf-8')
+            payload = pre + rng.choice(_TRUNC) + \
+                rng.choice([b'A', b' ', b'{', b'\x00', b'\x7f']) * k + \
+                S.rand_text(rng, 3).encode('utf-8')
+            case['payload'] = payload.hex()
+            n = len(payload)
+            case['frag_cuts'] = sorted(rng.randrange(0, n + 1)
+                                       for _ in range(rng.choice([0, 0, 1, 2])))
+            case['as'] = 'text'
+            case['ride'] = rng.choice([1, 15, 30, 31, 32, 63, k - 1, k - 1])
+            case['cut_before_bad'] = rng.random() < 0.8
     return case
 
 
@@ -228,8 +246,20 @@ def execute(case):
     t_expect = None
     if case.get('stall') and verdict == 'invalid' and offs:
         # deliver up to and including the offending byte, then go silent
-        cut = rlen + offs[idx] + 1
-        step['cuts'] = sorted(set([c for c in step['cuts'] if c < cut] + [cut]))
+        last = idx
+        if case.get('ride'):
+            # more bytes of the same fragment in the read that carries the
+            # offending byte
+            fe = min([c for c in case.get('frag_cuts') or [] if c > idx] +
+                     [len(payload)])
+            last = max(idx, min(idx + int(case['ride']), fe - 1))
+            res.stats['probe:offending_byte_not_last_in_read'] += last > idx
+        cut = rlen + offs[last] + 1
+        extra_cuts = [cut]
+        if case.get('cut_before_bad'):
+            extra_cuts.append(rlen + offs[idx])
+        step['cuts'] = sorted(set([c for c in step['cuts'] if c < cut] +
+                                  extra_cuts))
         ng = len(step['cuts'])
         gaps = [0] * ng
         gaps[-1] = 1000 * 1000000
